@@ -77,6 +77,25 @@ static void lltd_state_clear_seen_probes(lltd_iface_state *st) {
     st->see_list_count = 0;
 }
 
+/* Drop the first `count` observations (the ones a QueryResp just reported). */
+static void lltd_state_drop_seen_probes(lltd_iface_state *st, uint16_t count) {
+    if (!st) {
+        return;
+    }
+    while (st->see_list && count > 0) {
+        probe_t *next = (probe_t *)st->see_list->nextProbe;
+        lltd_port_free(st->see_list);
+        st->see_list = next;
+        if (st->see_list_count > 0) {
+            st->see_list_count--;
+        }
+        count--;
+    }
+    if (!st->see_list) {
+        st->see_list_count = 0;
+    }
+}
+
 static void lltd_state_clear_icon_cache(lltd_iface_state *st) {
     if (!st) {
         return;
@@ -323,7 +342,9 @@ static void parseQuery(void *inFrame, lltd_iface_state *st, void *iface_ctx) {
     }
 
     uint16_t num_descs = (st->see_list_count > max_descs) ? (uint16_t)max_descs : (uint16_t)st->see_list_count;
-    respH->numDescs = lltd_htons(num_descs);
+    /* MS-LLTD QueryResp: top bit of the count = "more descriptors remain" */
+    bool more = st->see_list_count > num_descs;
+    respH->numDescs = lltd_htons(more ? (uint16_t)(num_descs | 0x8000) : num_descs);
     offset += sizeof(*respH);
 
     probe_t *node = st->see_list;
@@ -349,7 +370,8 @@ static void parseQuery(void *inFrame, lltd_iface_state *st, void *iface_ctx) {
     (void)lltd_port_send_frame(iface_ctx, buffer, offset);
     lltd_port_free(buffer);
 
-    lltd_state_clear_seen_probes(st);
+    /* keep what did not fit for the mapper's next Query */
+    lltd_state_drop_seen_probes(st, num_descs);
 }
 
 static void sendLargeTlvResponse(lltd_iface_state *st,
